@@ -194,6 +194,9 @@ func renderEntries(w *yw, key, root string, es []Entry) {
 		if e.Tag != "" {
 			item("packager: %s", yq(e.Tag))
 		}
+		if e.Expand {
+			item("expand: true")
+		}
 		if e.HasFi || e.Fi != (Fi{}) {
 			item("file_info:")
 			if e.Fi.Owner != "" {
